@@ -12,12 +12,12 @@ import (
 
 // ev is one step of a traffic history.
 type ev struct {
-	Dt   uint64 `json:"dt_ms"`             // clock advance before the step
-	Arg  int    `json:"arg,omitempty"`     // hotspot: the parameter value
-	Err  bool   `json:"err,omitempty"`     // breaker: the request fails
-	Rt   uint64 `json:"rt_ms,omitempty"`   // breaker: response time (clock advance between entry and exit)
-	Hold bool   `json:"hold,omitempty"`    // hotspot: the entry stays open
-	Rel  bool   `json:"release,omitempty"` // hotspot: no request; the oldest open entry exits
+	Dt   uint64 `json:"dt_ms"`                            // clock advance before the step
+	Arg  int    `json:"arg,omitempty"`                    // hotspot: the parameter value
+	Err  bool   `json:"err,omitempty"`                    // breaker: the request fails
+	Rt   uint64 `json:"rt_ms,omitempty"`                  // breaker: response time (clock advance between entry and exit)
+	Hold bool   `json:"hold,omitempty"`                   // hotspot: the entry stays open
+	Rel  bool   `json:"release,omitempty"`                // hotspot: no request; the oldest open entry exits
 	On2  bool   `json:"on_referenced_resource,omitempty"` // flow: the request goes to the resource the subject rule refers to
 }
 
@@ -58,8 +58,6 @@ type kit[T any] struct {
 	refLoads func(u *T) bool
 }
 
-
-
 type metaScen[T any] struct {
 	Kind     string
 	U        *T
@@ -70,7 +68,7 @@ type metaScen[T any] struct {
 	// requests of that segment are issued from inside the generator called by that load
 	InGenOf map[int]int
 	Segs    [][]ev
-	SegIdx  []int // SegAfter[k] = Segs[SegIdx[k]] (-1: none)
+	SegIdx  []int       // SegAfter[k] = Segs[SegIdx[k]] (-1: none)
 	JRand   map[int]int // fallback number of in-generator requests
 }
 
